@@ -8,6 +8,7 @@ mod fw_c08;
 mod fw_c03;
 mod c18;
 mod c14;
+mod c06;
 
 fn main() {
     common::install_panic_hook();
@@ -22,6 +23,7 @@ fn main() {
         "fw_c17" => fw_c03::run_c17(&args),
         "pbcodec" | "pbcodec-child" => c18::run(&args),
         "wrappers" => c14::run(&args),
+        "sampling" | "f32ops" => c06::run(&args),
         s => {
             eprintln!("unknown stream {s}");
             std::process::exit(2);
